@@ -28,6 +28,8 @@ CLAIMS["C12"] = ("On every path of every Decoder method each successful consumin
 
 CLAIMS["C10"] = ("Every forwarding path consults every filter dimension on all of its loop paths; the black/white-list predicates answer true exactly on black-list hit or white-list miss on all their paths; FilterCmdKey keeps a key only when both key rules accepted it and marks the command filtered otherwise; projection case sets agree and projection is guarded; bookkeeping prefixes are blacklisted unconditionally; the bisected slot list is kept sorted/disjoint by insertion with bounds derived from the stored list; key-position tables are well-formed.", "3/C10")
 
+CLAIMS["C15"] = ("The Lua scripts embedded in the Redis election are parsed by the checker and every script path enumerated: lease written and 1 answered exactly when the lease is absent or owned by the caller, created with expiry, extended with the ttl; resign deletes only the caller's lease; the Go wrappers map reply 1 to leader and any error to candidate+error; one atomic EVAL per operation; any renewal error closes the running syncer; stop precedes resign; the configuration clamp renew <= lease/3 is the last write of both fields.", "3/C15")
+
 NOT_YET = "check not built yet in this revision (planned, see DESIGN.md section 3)"
 
 def main():
